@@ -190,7 +190,7 @@ def cases(tier):
                 2: ['coro', 'task', 'future', 'mixed', 'mixed2'],
                 3: ['coro', 'task', 'future', 'mixed', 'mixed2'],
                 4: ['coro', 'task', 'future', 'mixed', 'mixed2'], 5: ['mixed']}
-        offs = {0: (0,), 1: (0, 1), 2: (0, 1), 3: (0, 1), 4: (0, 1), 5: (0, 1)}
+        offs = {0: (0,), 1: (0, 1), 2: (0, 1), 3: (0, 1), 4: (0, 1), 5: (0,)}
     for k, pats in plan.items():
         for ranks in weak_orders(k):
             yield (k, ranks, pats, offs[k])
